@@ -10,6 +10,7 @@ mod exact;
 mod gen;
 mod mon_arith;
 mod mon_base;
+mod mon_c10;
 mod emit;
 mod mon_fn;
 mod mon_pow;
@@ -46,6 +47,7 @@ fn run_prop(prop: &str, c: &mut Ctx) -> bool {
         "C07" => mon_base::c07(c),
         "C08" => mon_base::c08(c),
         "C09" => mon_base::c09(c),
+        "C10" => mon_c10::c10(c),
         "C12" => mon_fn::c12(c),
         "C13" => mon_pow::c13(c),
         "C14" => mon_fn::c14(c),
